@@ -10,7 +10,7 @@ Expressions in prefix notation:
   `n <u:>` name · `d <k> <u:>×k` dotted · `i <hex>` int · `f <u:>` float/complex text · `s <u:>` str ·
   `b <n,n,…|->` bytes · `N`/`T`/`F` None/True/False · `E` ellipsis · `U <Op> e` · `B <Op> e e` ·
   `L <Op> <k> e×k` · `tu|li|se <k> e×k` · `di <k> (key val)×k` (key `ab` = `**`) ·
-  `ca f <na> e×na <nk> (<u:name>|- e)×nk` · `su e e` · `st e` · `A a` (astor fragment) · `o <u:>` opaque ·
+  `ca f <na> e×na <nk> (<u:name>|- e)×nk` · `su e e` · `st e` · `A a` (astor fragment) · `o <u:one-line> <u:wrapped>` opaque ·
   `un` (astor raised) · `ab` · `ul e` (node reached without a parent link).
 Astor fragment: `n <u:>` · `U <Op> a` · `B <Op> a a` · `L <Op> <k> a×k` · `C a <k> (<Op> a)×k` · `I a a a`.
 Operators are the `ast` class names. -/
@@ -115,7 +115,7 @@ def parseE : Nat → List String → Option (Expr × List String)
     | "E" :: rest => some (.ellipsis, rest)
     | "ab" :: rest => some (.absent, rest)
     | "un" :: rest => some (.unknown, rest)
-    | "o" :: s :: rest => do some (.opaque (← Proto.decodeStr s), rest)
+    | "o" :: s :: w :: rest => do some (.opaque (← Proto.decodeStr s) (← Proto.decodeStr w), rest)
     | "A" :: rest => do
       let (a, rest) ← parseA fuel rest
       some (.astor a, rest)
@@ -302,7 +302,7 @@ end
 
 def showExc : Exc → String
   | .maxlines => "_Maxlines" | .linebreak => "_Linebreak" | .valueError => "ValueError"
-  | .indexError => "IndexError" | .fuel => "Fuel"
+  | .indexError => "IndexError" | .fuel => "Fuel" | .recursion => "RecursionError"
 
 def handle (args : List String) : String :=
   match args with
